@@ -64,8 +64,8 @@ def main():
             import re
             text = demo_src.read_text()
             demo = wt.parent / f"{wt.name}_demo{k}.py"
-            demo.write_text(re.sub(r"/tmp/seed/wt_C\d+", str(wt), text))
-            stored_demo = re.sub(r"/tmp/seed/wt_C\d+", "/repo", text)
+            demo.write_text(re.sub(r"/tmp/seed/wt2?_C\d+", str(wt), text))
+            stored_demo = re.sub(r"/tmp/seed/wt2?_C\d+", "/repo", text)
             meta = json.loads((out / f"meta{k}.json").read_text())
             env = f"cd {wt} && PYTHONPATH={wt}"
             sh(f"git -C {wt} checkout -- . && git -C {wt} clean -fdq -e '*.so' "
